@@ -32,12 +32,14 @@ Expression tags are plain names and compound shapes (calls to escape/xhtml_escap
 json_encode/linkify, concatenations such as escape(a) + str(b), conditional expressions, method calls,
 %-formatting) with an adversarial value in every operand; the property is about the VALUE of the whole
 expression, so `{{ escape(a) }}` under an escaping setting is f(escape(a)) -- double-escaped by default.
+Part "dirs": the same clauses for every entry of a history loaded through ONE loader over a template set in
+2-3 directories where the same relative name means different files (see C19).
 Values whose rendering raises (NameError from an unset local ...) must raise the same type in both.
 
 Related open finding (filed under C19, the template is ill-formed): `{% autoescape %}` without a function
 name is accepted and silently turns escaping off for the file (findings_inbox/C19-autoescape-empty-accepted.md).
 
-Sensitivity (quick tier, seed 1, scratch copy of /repo/tornado; all 11 caught; clause after shrinking):
+Sensitivity (quick tier, seed 1, scratch copy of /repo/tornado; all 12 caught; clause after shrinking):
   M1 _Expression.generate consults the root template (include_stack[0]) instead of current_template -> C20.meta_output
   M2 values that are not str/bytes are str()-ed but not escaped                                    -> C20.special_char_without_unescaped_source
   M3 _CodeWriter.include() does not restore current_template on exit                              -> C20.meta_output
@@ -56,6 +58,7 @@ Sensitivity (quick tier, seed 1, scratch copy of /repo/tornado; all 11 caught; c
      raw ("already escaped"): `{{ escape(a) + str(b) }}` emits b unescaped, `{{ escape(v) }}` bypasses     (seeds 1, 2, 3; after <= 114 cases;
      a custom escaper; was missed before compound expressions (helper calls, concatenation,               C19.output catches it too)
      conditional expressions, method calls, %-formatting over adversarial operands) joined the pool
+  M12 BaseLoader.load caches under the unresolved name (seeded for C19, round 7)                       -> C20.output, part "dirs", seeds 1, 2, 3
 """
 import copy
 import logging
@@ -239,6 +242,16 @@ def c20_case(draw):
     return case
 
 
+@st.composite
+def c20_dirs_case(draw):
+    case = draw(G.dirs_case_strategy("c20", pools=POOLS))
+    case["values"] = [draw(value_strategy(i)) for i in range(5)]
+    case["meta"] = [draw(st.integers(0, len(case["files"]) - 1)), draw(st.sampled_from(SETTINGS))]
+    case["direct"] = "loader"
+    case["perfile"] = [draw(st.sampled_from(PERFILE)) for _ in case["files"]] if draw(st.booleans()) else None
+    return case
+
+
 PERFILE = ["unset", None, "xhtml_escape", None, "xhtml_escape", "myesc", "url_escape", "bresc"]
 
 
@@ -308,9 +321,9 @@ def file_settings(case, meta=None):
     return out
 
 
-def run_both(case, files, kwargs):
-    """-> (real, ref_slices|None, ref_outcome)"""
-    entry = case["files"][0]["name"]
+def run_both(case, files, kwargs, entry=None, shared=None):
+    """-> (real, ref_slices|None, ref_outcome); `shared` = a real loader to reuse (history of loads)."""
+    entry = entry or case["files"][0]["name"]
     ns = G.loader_namespace()
     if case["direct"] != "loader":
         tkw = {} if case["direct"] == "default" else {"autoescape": case["direct"]}
@@ -331,7 +344,9 @@ def run_both(case, files, kwargs):
             lkw["autoescape"] = case["loader"]["autoescape"]
         policy = perfile_policy(case)
         try:
-            if case.get("perfile"):
+            if shared is not None:
+                t = shared.load(entry)
+            elif case.get("perfile"):
                 t = PerFileLoader(dict(files), policy, namespace=ns, **lkw).load(entry)
             else:
                 t = template.DictLoader(dict(files), namespace=ns, **lkw).load(entry)
@@ -385,39 +400,65 @@ def _family(n):
 
 
 def run_case(ctx, case):
+    labels = set()
+    nontrivial = evaluate(ctx, case, labels)
+    ctx.note(case, labels, nontrivial)
+
+
+def run_dirs_case(ctx, case):
+    """The same clauses for every entry point of a history loaded through ONE loader over a template set
+    spread over directories in which the same relative name means different files (warm caches)."""
+    labels = {"dirs"}
+    files = build_files(case)
+    ns = G.loader_namespace()
+    lkw = {}
+    if case["loader"]["autoescape"] != "default":
+        lkw["autoescape"] = case["loader"]["autoescape"]
+    if case.get("perfile"):
+        shared = PerFileLoader(dict(files), perfile_policy(case), namespace=ns, **lkw)
+    else:
+        shared = template.DictLoader(dict(files), namespace=ns, **lkw)
+    nontrivial = False
+    for step, entry in enumerate(case["history"]):
+        if evaluate(ctx, case, labels, entry=entry, shared=shared, do_meta=(step == len(case["history"]) - 1)):
+            nontrivial = True
+        if step:
+            labels.add("warm_cache_load")
+    ctx.note(case, labels, nontrivial)
+
+
+def evaluate(ctx, case, labels, entry=None, shared=None, do_meta=True):
+    """All clauses for one entry point; returns the non-trivial flag (accounting is the caller's)."""
     kwargs = namespace_kwargs(case)
     files = build_files(case)
     settings = file_settings(case)
-    labels = set()
-    real, slices, ref = run_both(case, files, kwargs)
+    real, slices, ref = run_both(case, files, kwargs, entry=entry, shared=shared)
     policy = perfile_policy(case)
     loader_default = "xhtml_escape" if case["loader"]["autoescape"] == "default" else case["loader"]["autoescape"]
     if case.get("perfile"):
         labels.add("perfile_loader")
-    detail = {"files": files, "values": case["values"], "loader": case["loader"], "direct": case["direct"],
+    detail = {"files": files, "values": case["values"], "loader": case["loader"], "direct": case["direct"], "entry": entry,
+              "history": case.get("history"),
               "perfile": case.get("perfile"),
               "real": real, "ref": ref[:3]}
     if any(v[0] == "bytes" for v in case["values"]):
         labels.add("has_bytes_value")
     if ref[0] == "either":
-        ctx.note(case, labels | {"either_" + ref[1]}, False)
-        return
+        labels.add("either_" + ref[1])
+        return False
     if real[0] == "parse":
         ctx.fail("C20.wellformed_rejected", detail)
-        ctx.note(case, labels, False)
-        return
+        return False
     if ref[0] == "exc":
         labels.add("raises")
         if real[0] == "ok":
             ctx.fail("C20.output_instead_of_exception", detail)
         elif _family(real[1]) != _family(ref[1]):
             ctx.fail("C20.exception_type", detail)
-        ctx.note(case, labels, False)
-        return
+        return False
     if real[0] != "ok":
         ctx.fail("C20.exception_instead_of_output", detail)
-        ctx.note(case, labels, False)
-        return
+        return False
     out = real[1]
 
     # (b0) from the AST alone
@@ -429,8 +470,7 @@ def run_case(ctx, case):
 
     if out != ref[1]:
         ctx.fail("C20.output", detail)
-        ctx.note(case, labels, False)
-        return
+        return False
 
     distinct_settings = len(set(settings.values())) >= 2
     adversarial_through = [False]
@@ -533,7 +573,7 @@ def run_case(ctx, case):
                         and settings[root_name] is not None and settings[inner_file] != settings[root_name]:
                     labels.add("child_overrides_block_parent_escapes")
 
-    root_name = chain_root(case)
+    root_name = chain_root(case, entry)
     off = 0
     for sl in slices:
         piece = out[off:off + len(sl.data)]
@@ -545,9 +585,9 @@ def run_case(ctx, case):
     mi %= len(case["files"])
     aname = case["files"][mi]["name"]
     new_setting = None if msetting == "None" else msetting
-    if new_setting != settings[aname]:
+    if do_meta and new_setting != settings[aname]:
         files2 = build_files(case, (mi, msetting))
-        real2, slices2, ref2 = run_both(case, files2, kwargs)
+        real2, slices2, ref2 = run_both(case, files2, kwargs, entry=entry)
         d2 = dict(detail, files2=files2, changed_file=aname, new_setting=msetting, real2=real2, ref2=ref2[:3])
         if ref2[0] == "ok":
             labels.add("metamorphic")
@@ -576,7 +616,7 @@ def run_case(ctx, case):
             labels.add("metamorphic_raises")
 
     nontrivial = distinct_settings and adversarial_through[0]
-    ctx.note(case, labels, nontrivial)
+    return nontrivial
 
 
 def _apply_touches(sl, aname):
@@ -590,17 +630,18 @@ def tornado_utf8(v):
     return v if isinstance(v, bytes) else v.encode("utf-8")
 
 
-def chain_root(case):
+def chain_root(case, entry=None):
     by_name = {fd["name"]: fd for fd in case["files"]}
-    fd = case["files"][0]
+    fd = by_name[entry] if entry else case["files"][0]
     while fd.get("extends"):
         fd = by_name[posixpath.normpath(posixpath.join(posixpath.dirname(fd["name"]), fd["extends"][0]))]
     return fd["name"]
 
 
-PARTS = {"main": run_case}
+PARTS = {"main": run_case, "dirs": run_dirs_case}
 
 
 def main(ctx):
     ctx.run_replays(PARTS)
-    ctx.explore(c20_case(), run_case, ctx.n(1000, 30000), name="main")
+    ctx.explore(c20_case(), run_case, ctx.n(900, 28000), name="main")
+    ctx.explore(c20_dirs_case(), run_dirs_case, ctx.n(150, 4000), name="dirs")
